@@ -51,6 +51,7 @@ def plan(tier, seed):
     units = _plan0(tier, seed)
     themes = ['range']
     k = 16 if tier == 'quick' else 160
+    units += [{'kind': 'coldfault', 'seed': seed * 2039 + i + 1, 'n': 400 if tier == 'quick' else 2000} for i in range(16 if tier == 'quick' else 160)]
     units += [{'kind': 'lazy', 'theme': themes[i % len(themes)], 'seed': seed * 65521 + i, 'n': 60 if tier == 'quick' else 200} for i in range(k)]
     return units
 
@@ -138,9 +139,71 @@ def run_unit(u):
         bump('VIOL')
         if len([x for x in res['viol'] if 'known_key' not in x]) < 8:
             res['viol'].append({'what': '<input type=%s min=%r max=%r value=%r>: (:in-range, :out-of-range) = %r, calendar says %r' % (
-                t, mn, mx, v, got, exp), 'case': [t, mn, mx, v], 'selector': ':in-range',
-                'class': sig(t, str(got)[:6], len(str(mn or '')), len(str(v or '')) > 0, (mn or '')[:1])})
+                t, mn, mx, v, got, exp) + (' - asked after a call that met these strings for the first time in the process was cut short by an injected exception'
+                                           if label == 'after_cold_fault' else ''), 'case': [t, mn, mx, v], 'selector': ':in-range',
+                'class': sig(t, str(got)[:6], len(str(mn or '')), len(str(v or '')) > 0, (mn or '')[:1], label == 'after_cold_fault'),
+                **({'cold_fault_unit': dict(u)} if label == 'after_cold_fault' else {})})
 
+    if u['kind'] == 'coldfault':
+        # A call that is cut short while it parses a value it has never seen must leave nothing behind: strings that are new to the
+        # process (unique per iteration; the line count of the call is probed with *other* strings of the same shape, so that nothing
+        # has parsed them before) are first met by a call that dies at a random line inside the library; the same strings asked again
+        # in the ordinary way must be judged as the calendar / number rules say.
+        import random as _random
+        rng = _random.Random(u['seed'])
+
+        class Injected(BaseException):
+            pass
+
+        def fresh(t, serial):
+            if t == 'number':
+                a = rng.randint(-50, 50)
+                return ['%d.%d%d' % (a + d, u['seed'] % 1000003, serial) for d in rng.sample([-2, -1, 0, 1, 2, 3], 3)]
+            if t == 'date':
+                y = 1000 + (u['seed'] * 7919 + serial * 13) % 8000
+                return ['%04d-%02d-%02d' % (y + d, rng.randint(1, 12), rng.randint(1, 28)) for d in rng.sample([-1, 0, 1, 2], 3)]
+            if t == 'month':
+                y = 1000 + (u['seed'] * 104729 + serial * 17) % 8000
+                return ['%04d-%02d' % (y + d, rng.randint(1, 12)) for d in rng.sample([-1, 0, 1, 2], 3)]
+            y = 1000 + (u['seed'] * 15485863 + serial * 19) % 8000
+            return ['%04d-%02d-%02dT%02d:%02d' % (y + d, rng.randint(1, 12), rng.randint(1, 28), rng.randint(0, 23), rng.randint(0, 59)) for d in rng.sample([-1, 0, 1, 2], 3)]
+
+        def setup(t, mn, mx, v):
+            e = pr.el
+            e.attrs.clear()
+            e['type'] = t
+            for k_, x in (('min', mn), ('max', mx), ('value', v)):
+                if x is not None:
+                    e[k_] = x
+            return e
+        for i in range(u['n']):
+            t = rng.choice(['number', 'date', 'month', 'datetime-local'])
+            shape = rng.choice(['all', 'min', 'max'])
+
+            def pick(vals):
+                mn, mx, v = vals
+                return (mn if shape in ('all', 'min') else None, mx if shape in ('all', 'max') else None, v)
+            probe_vals = pick(fresh(t, 2 * i))
+            c = rng.choice([pr.IN, pr.OUT])
+            e = setup(t, *probe_vals)
+            with monitors.Failpoint(None) as probe:
+                monitors.guarded_call(c.match, e)
+            vals = pick(fresh(t, 2 * i + 1))
+            e = setup(t, *vals)
+            fired = None
+            try:
+                with monitors.cpu_budget(20), monitors.Failpoint(rng.randint(1, max(1, probe.n)), rng.choice([Injected, KeyboardInterrupt, MemoryError, RecursionError])) as fp:
+                    c.match(e)
+            except BaseException as ex:  # noqa: BLE001 - the injected fault
+                if isinstance(ex, monitors.BudgetExceeded):
+                    continue
+                fired = fp.fired
+            bump('cold_faults' if fired else 'cold_fault_not_fired')
+            if fired:
+                bump('cold_site:' + fired.rsplit(':', 1)[0])
+            case(t, vals[0], vals[1], vals[2], label='after_cold_fault')
+        res['sigs'] = list(sigs)
+        return res
     if u['kind'] == 'calendar':
         quick = u['tier'] == 'quick'
         for y in range(u['lo'], u['hi']):
@@ -301,6 +364,10 @@ def classify(w):
 
 
 def replay(w):
+    if w.get('cold_fault_unit'):
+        r = run_unit(w['cold_fault_unit'])       # deterministic in its seed; the fault has to come first
+        v = [x for x in r['viol'] if x.get('cold_fault_unit')]
+        return dict(w, status_now=v[0]['what']) if v else None
     import soupsieve as sv
     if 'markup' in w:
         import bs4
